@@ -146,7 +146,8 @@ bus0_pipe_init(void *arg, nni_pipe *np, void *s)
 	NNI_LIST_NODE_INIT(&p->node);
 	nni_aio_init(&p->aio_send, bus0_pipe_send_cb, p);
 	nni_aio_init(&p->aio_recv, bus0_pipe_recv_cb, p);
-	nni_lmq_init(&p->send_queue, p->bus->send_buf);
+	// (sized in pipe_start, under the socket lock)
+	nni_lmq_init(&p->send_queue, 1);
 
 	return (0);
 }
@@ -165,6 +166,14 @@ bus0_pipe_start(void *arg)
 	}
 
 	nni_mtx_lock(&s->mtx);
+	// Size the send queue now, under the lock: from here on the option
+	// setter finds us on the list.
+	if (nni_lmq_cap(&p->send_queue) != (size_t) s->send_buf) {
+		if (nni_lmq_resize(&p->send_queue, (size_t) s->send_buf) != 0) {
+			nni_mtx_unlock(&s->mtx);
+			return (NNG_ENOMEM);
+		}
+	}
 	nni_list_append(&s->pipes, p);
 	nni_mtx_unlock(&s->mtx);
 
